@@ -18,7 +18,7 @@ def c03_suites(tier):
 
 
 def c04_suites(tier):
-    return [gens.MethodRowsSuite(with_calls=True), gens.GenHistorySuite(), gens.CreateRowGenSuite()]
+    return [gens.MethodRowsSuite(with_calls=True), gens.GenHistorySuite(), gens.CreateRowGenSuite(), system.SecondTouchSuite()]
 
 
 def c05_suites(tier):
